@@ -14,7 +14,7 @@ func checkC11(c *checkCtx) int {
 	timeout := 5 * time.Minute
 	soft := "90s"
 	if c.Tier == "thorough" {
-		inputs = 3200
+		inputs = 2400
 		timeout = 70 * time.Minute
 		soft = "60m"
 	}
